@@ -242,6 +242,9 @@ class DeprecatedOptions:
                 return True
             elif opt.orig_type in (INT, STRING, HEX, FLOAT) and opt.str_value != "":
                 return True
+            elif opt.orig_type == STRING and opt.config_string:
+                # an empty string is written as `#define CONFIG_X ""` (a number without a value is not defined at all)
+                return True
             return False
 
         if not self.r_dic:
